@@ -44,7 +44,7 @@ Lemma set_keyval_denote r kv :
                     | None => None
                     end.
 Proof.
-  intros Hkv. unfold set_keyval, denote.
+  intros Hkv. unfold set_keyval, denote. change i64_min with int_min. change i64_max with int_max.
   destruct (split_eq kv) as [[k v]|] eqn:Es; [|reflexivity].
   pose proof (split_eq_nonul _ _ _ Hkv Es) as Hv.
   destruct (find_field fields k) as [fd|] eqn:Ef; [|reflexivity].
@@ -99,7 +99,8 @@ Qed.
 
 Lemma denote_ok kv fd v : denote kv = Some (fd, v) -> In fd fields /\ okval fd v.
 Proof.
-  unfold denote. destruct (split_eq kv) as [[k s]|]; [|discriminate].
+  unfold denote. change i64_min with int_min. change i64_max with int_max.
+  destruct (split_eq kv) as [[k s]|]; [|discriminate].
   destruct (find_field fields k) as [fd'|] eqn:Ef; [|discriminate].
   apply find_field_In in Ef. destruct Ef as [Hin _].
   destruct (fd_type fd') eqn:Et.
